@@ -52,7 +52,7 @@ class C06(OptEngineBase):
     PROBES = [
         "fixed_isolated", "all_fixed", "none_fixed", "fixed_landmark", "unfix_between_calls",
         "first_vertex_not_min_id", "nan_outcome", "diverged_outcome", "singular_natural", "solver_raise_fired",
-        "i3_checked", "i3_skipped_illcond", "stdout_fail_fired", "multi_component", "singular_raised_as_error", "i3_trajectory_step", "aliased_pose_objects", "fixed_satellite_pose", "fixed_vertex_moved_by_user_between_calls", "graph_pickled_or_deepcopied_between_calls", "multi_iteration_end_state_checked", "integer_fixed_flags",
+        "i3_checked", "i3_skipped_illcond", "stdout_fail_fired", "multi_component", "singular_raised_as_error", "i3_trajectory_step", "aliased_pose_objects", "fixed_satellite_pose", "fixed_vertex_moved_by_user_between_calls", "graph_pickled_or_deepcopied_between_calls", "multi_iteration_end_state_checked", "integer_fixed_flags", "solver_raised_naturally",
     ]
 
     # ------------------------------------------------------------------ generate
@@ -222,6 +222,7 @@ class C06(OptEngineBase):
                         model.add(verts[0].id)
                     before = poses_snapshot(g)
                     fired_before = len(w.plan.fired)
+                    nsr_before = w.natural_solver_raises
                     ref = None
                     if not dry and op["max_iter"] == 1 and all_finite(before):
                         try:
@@ -293,6 +294,8 @@ class C06(OptEngineBase):
                     # unexpected exception
                     if raised is not None and not (fired_kinds & RAISING):
                         wellposed = ref is not None and ref.get("ok")
+                        if w.natural_solver_raises > nsr_before and type(raised).__name__ != "SparseEfficiencyWarning" and not wellposed:
+                            res.probe("solver_raised_naturally")
                         if wellposed:
                             res.violate("C06:raised-on-well-posed",
                                         "op %d optimize raised %s: %s although the reduced problem is well-posed (cond %.3g)"
